@@ -36,7 +36,9 @@ def make_member(W, log, required_fh=False):
     return Member
 
 
-def make_transformer(W, log):
+def make_transformer(W, log, stateful=False):
+    """elementwise uninterpreted transformer t(tag, v) / tinv(tag, v).  stateful=True: every update(update_params=True)
+    moves the fitted state, i.e. the effective tag becomes tag + 100 * (number of such updates since fit)"""
     pd = W.pd
     TB = W.load("sktime.transformations.base")._SeriesToSeriesTransformer
 
@@ -45,22 +47,28 @@ def make_transformer(W, log):
             self.tag = tag
             super().__init__()
 
+        def _eff(self):
+            return self.tag + 100 * getattr(self, "n_upd_", 0)
+
         def fit(self, Z, X=None):
             log.append({"op": "t.fit", "who": S(self.tag), "idx": L(Z.index), "vals": L(Z.values)})
+            self.n_upd_ = 0
             self._is_fitted = True
             return self
 
         def transform(self, Z, X=None):
             self.check_is_fitted()
-            return pd.Series([W.uf("t", [self.tag, v], "ir>r") for v in L(Z.values)], index=Z.index)
+            return pd.Series([W.uf("t", [self._eff(), v], "ir>r") for v in L(Z.values)], index=Z.index)
 
         def inverse_transform(self, Z, X=None):
             self.check_is_fitted()
-            return pd.Series([W.uf("tinv", [self.tag, v], "ir>r") for v in L(Z.values)], index=Z.index)
+            return pd.Series([W.uf("tinv", [self._eff(), v], "ir>r") for v in L(Z.values)], index=Z.index)
 
         def update(self, Z, X=None, update_params=True):
             self.check_is_fitted()
-            log.append({"op": "t.update", "who": S(self.tag), "idx": L(Z.index), "vals": L(Z.values)})
+            log.append({"op": "t.update", "who": S(self.tag), "idx": L(Z.index), "vals": L(Z.values), "update_params": update_params})
+            if stateful and update_params:
+                self.n_upd_ += 1
             return self
 
     class TSkip(T):
